@@ -80,6 +80,37 @@ def run(ctx):
                 G.setdefault(a["static"], []).append((p, a["line"]))
     ctx.floor("R1", len(G), 1, "mutable statics read by the solver")
     ctx.extra["G"] = {k: ["%s:%d" % x for x in v] for k, v in G.items()}
+    # thread-local cells (`thread_local!`): reached through LocalKey::with, so the static inventory above cannot see them
+    import tls
+    tinv, tper = tls.inventory(prog)
+    scoped, tls_open = [], []
+    by_path = {b.path: b for b in prog.lib_bodies()}
+    for key, e in sorted(tinv.items(), key=lambda kv: str(kv[0])):
+        users = e["readers"] | e["writers"]
+        if not (users & reach):
+            continue
+        if key is None:
+            ctx.ob("R1", "thread-local(unidentified)", False, "", "a LocalKey used in solver-reachable code could not be identified")
+            continue
+        if not e["writers"]:
+            continue            # never written: a per-thread constant
+        bad = None
+        for w in sorted(e["writers"]):
+            wb = by_path.get(w)
+            if wb is None:
+                bad = (w, {None})
+                break
+            if " as std::ops::Drop>" in w:
+                continue        # a guard's Drop: accounted for where the guard is held
+            ne = tls.net_effect(prog, wb, key, tper)
+            if ne != {0}:
+                bad = (w, ne)
+                break
+        if bad is None:
+            scoped.append(key)
+        else:
+            tls_open.append((key, bad))
+    ctx.extra["scoped_thread_local_counters"] = scoped
     MQ = prog.one("s_complex::make_query")
     PQ = prog.one("s_complex::parse_query")
     if MQ is None or PQ is None:
@@ -121,6 +152,16 @@ def run(ctx):
                 "after an earlier one inherits its value" % (g, readers)) if not okmw else
                ("`%s` is reset, but not before the query's variables are renamed" % g) if not ordered else
                "make_query writes `%s` on every path, before renaming (read by %s)" % (g, readers))
+    for key, (w, ne) in tls_open:
+        wb = by_path.get(w)
+        resets = [o for o in tper.get(MQ.path, []) if o["key"] == key and any(x[0] == "const" for x in o["effects"])]
+        dominated = bool(resets) and all(any(cfg.dom(o["bb"], i) for o in resets) for i, blk in enumerate(MQ.blocks)
+                                         if blk["term"]["k"] == "return")
+        ctx.ob("R2", "reset(%s)" % key.split("::")[-1], dominated, ctx.where(wb) if wb is not None else "",
+               "make_query sets the thread-local `%s` to a constant on every path" % key if dominated else
+               ("the thread-local `%s` is read during the search and %s can leave it changed (net change over its paths: %s); it is "
+                "not reset when a query is built, so a query inherits what earlier queries left in it" % (
+                    key, w.split("::")[-1], sorted(str(x) for x in ne))))
     # parse_query's Ok goes through make_query
     ok, why, n = True, "", 0
     try:
